@@ -97,3 +97,9 @@ package criteria_mixing
 //@ wire MixedCriterionValue
 //@   property C01 C07 C18 C20
 //@   json Value=value
+
+// ---- registered names (what a request must say to select this object; what error messages list)
+//@ func (*CriteriaMixing).Identifier
+//@   property C07 C18 C20
+//@   nopanic
+//@   ensures [name] result == "criteriaMixing"
